@@ -186,6 +186,9 @@ def run(st, tier, seed):
                          (t2.replace(" : %d" % L, " : %d" % (L + 1), 1), "declared length disagrees")):
             if bad is None or bad in (t1, t2):
                 continue
+            # without the structure lines: their sizes were written for the well-formed statement and would refuse the malformed
+            # neighbour for a reason of their own, hiding whether the STATEMENT is refused
+            bad = "".join(l_ for l_ in bad.splitlines(True) if not l_.lstrip().startswith("structure"))
             rb = compile_text(bad)
             res.evaluations += 1
             res.count("malformed:" + why)
@@ -201,6 +204,7 @@ def run(st, tier, seed):
                                ("first-and-last", t1.replace(head_, head_ + '"?S" ', 1).replace(" : %d" % max(L, 0), ' "?W" : %d' % max(L, 0), 1))):
                 if bad == t1:
                     continue
+                bad = "".join(l_ for l_ in bad.splitlines(True) if not l_.lstrip().startswith("structure"))
                 rb = compile_text(bad)
                 res.evaluations += 1
                 res.count("malformed:two-wildcard-regions:" + where)
